@@ -773,6 +773,10 @@ int cp_rsa_sig(uint8_t *sig, size_t *sig_len, const uint8_t *msg,
 	pad_len = (!hash ? RLC_MD_LEN : msg_len);
 
 #if CP_RSAPD == PKCS2
+	/* EMSA-PSS is defined on a digest of exactly the hash length. */
+	if (hash && msg_len != RLC_MD_LEN) {
+		return RLC_ERR;
+	}
 	size = bn_bits(prv->crt->n) - 1;
 	size = (size / 8) + (size % 8 > 0);
 	if (pad_len > (size - 2)) {
@@ -869,6 +873,15 @@ int cp_rsa_ver(uint8_t *sig, size_t sig_len, const uint8_t *msg, size_t msg_len,
 	if (pub == NULL || msg_len < 0 || sig_len != bn_size_bin(pub->crt->n)) {
 		return 0;
 	}
+
+#if CP_RSAPD == PKCS2
+	/* EMSA-PSS is defined on a digest of exactly the hash length. */
+	if (hash && msg_len != RLC_MD_LEN) {
+		RLC_FREE(h1);
+		RLC_FREE(h2);
+		return 0;
+	}
+#endif
 
 	pad_len = (!hash ? RLC_MD_LEN : msg_len);
 
